@@ -83,6 +83,10 @@ func (c c06Case) build(w *World, key string, payload []byte, sizes []int) (*gw.R
 		}
 	}
 	switch c.Corrupt {
+	case "spliced-chunk-with-empty-signature":
+		// the declared length covers the spliced bytes (whoever can replay the signed header can declare what it likes
+		// in a request of its own; here the header is simply signed for the longer length)
+		declared += 3
 	case "declared-length-plus-1":
 		declared++
 		applied = streaming
@@ -197,6 +201,20 @@ func (c c06Case) corruptStream(enc []byte, spans []gw.ChunkSpan, applied, hasTra
 			}
 			return out, true
 		}
+	case "empty-chunk-signature":
+		// the signature of data chunk Arg is removed ("chunk-signature=" followed by nothing)
+		if signed && c.Arg < len(spans)-1 {
+			sp := spans[c.Arg]
+			i := bytes.Index(out[sp.HeaderStart:sp.DataStart], []byte("chunk-signature=")) + sp.HeaderStart + len("chunk-signature=")
+			return append(append(append([]byte{}, out[:i]...), '\r', '\n'), out[sp.DataStart:]...), true
+		}
+	case "spliced-chunk-with-empty-signature":
+		// a chunk nobody signed is inserted in front of chunk Arg; the signatures of all other chunks stay as they are
+		if signed && c.Arg < len(spans) {
+			at := spans[c.Arg].HeaderStart
+			ins := []byte("3;chunk-signature=\r\nXYZ\r\n")
+			return append(append(append([]byte{}, out[:at]...), ins...), out[at:]...), true
+		}
 	case "trailer-checksum":
 		if hasTrailer {
 			i := bytes.LastIndex(out, []byte("x-amz-checksum-"))
@@ -253,7 +271,7 @@ func (c c06Case) corruptStream(enc []byte, spans []gw.ChunkSpan, applied, hasTra
 }
 
 func C06(r *ck.Run) {
-	r.Rule("upload mode {signed, UNSIGNED-PAYLOAD, presigned, streaming signed, streaming signed+trailer, streaming unsigned+trailer} × {PutObject, UploadPart} × integrity field × corruption (bit flip at EVERY payload offset, wrong declared value of every field, every chunk/trailer signature, truncation after every chunk / inside every header / inside data, extra bytes, declared decoded length ±1 and ×2) × prior key state (new, existing; versioned in the thorough tier) × 3 request fragmentations, end-to-end with byte-exact storage snapshots; distinct = (config, case, key state, fragmentation)")
+	r.Rule("upload mode {signed, UNSIGNED-PAYLOAD, presigned, streaming signed, streaming signed+trailer, streaming unsigned+trailer} × {PutObject, UploadPart} × integrity field × corruption (bit flip at EVERY payload offset, wrong declared value of every field, every chunk/trailer signature, every chunk signature emptied, an unsigned chunk spliced in front of every chunk, truncation after every chunk / inside every header / inside data, extra bytes, declared decoded length ±1 and ×2) × prior key state (new, existing, directory-object key with and without data; versioned in the thorough tier) × 3 request fragmentations, end-to-end with byte-exact storage snapshots; distinct = (config, case, key state, fragmentation)")
 	r.Assume("an upload with UNSIGNED-PAYLOAD / presigned and neither Content-MD5 nor a checksum header carries no assertion about the payload bytes, so bit flips are not applied there")
 	cfgs := []gw.Opts{{}, {Sidecar: true}}
 	if r.Thorough() {
@@ -308,6 +326,8 @@ func C06(r *ck.Run) {
 						add("truncate-inside-data", ch)
 						add("truncate-at-data-end", ch)
 						add("flip-then-truncate-at-data-end", ch)
+						add("empty-chunk-signature", ch)
+						add("spliced-chunk-with-empty-signature", ch)
 					}
 					if strings.HasPrefix(mode, "stream-") && !v.MD5 {
 						addBig := func(corrupt string, arg int) {
@@ -357,14 +377,24 @@ func C06(r *ck.Run) {
 				if !r.Mine(idx) {
 					continue
 				}
-				for _, key := range []string{"c06new", w.Key} {
+				for _, key := range []string{"c06new", w.Key, "c06dir/", "c06dir-with-data/"} {
 					if c.Op == "part" && key != "c06new" {
+						continue
+					}
+					if strings.HasSuffix(key, "/") && c.Big {
+						continue
+					}
+					if key == "c06dir-with-data/" && c.Corrupt != "" {
 						continue
 					}
 					for fi := range frags {
 						payload, sizes := payload, sizes
 						if c.Big {
 							payload, sizes = bigPayload, bigSizes
+						}
+						if key == "c06dir/" {
+							// a directory object holds no data: the assertions about its (empty) payload are checked all the same
+							payload, sizes = nil, nil
 						}
 						req, applied := c.build(w, key, payload, sizes)
 						if !applied {
@@ -389,6 +419,9 @@ func C06(r *ck.Run) {
 						state := "new-key"
 						if key != "c06new" {
 							state = "existing-key"
+						}
+						if strings.HasSuffix(key, "/") {
+							state = "directory-object"
 						}
 						if c.Op == "part" {
 							state = "part"
